@@ -17,6 +17,7 @@ func init() {
 const pkgBRInfo = "pkg/scheduler/api/bindrequest_info"
 
 func runC12(c *Ctx) {
+	runC12NodePoolLabels(c)
 	borrow(c, "O6", "C11", "O4", "a recovered panic is reported as a failed attempt", "the status written for the hand-off must reflect the outcome of the attempt")
 
 	p, fx := c.P, c.Fx
@@ -255,4 +256,68 @@ func runC12(c *Ctx) {
 			c.Check(notPh || below, "O5", "ABS", fmt.Sprintf("%s false path#%d", funcKey(isFailed), i), rp.Pos, "not Failed, or attempts < limit", "IsFailed answers false for a failed request that has exhausted its attempts")
 		}
 	}
+}
+
+// runC12NodePoolLabels (O7): a BindRequest carries the labels of the scheduler's node pool. The snapshot recognises
+// a request whose node disappeared — and deletes it — only if the node-pool selector matches the request's labels;
+// without them the request is neither charged nor cleaned and the pod can never be bound again (the request is
+// named after the pod).
+func runC12NodePoolLabels(c *Ctx) {
+	fn := c.Anchor("O7", "pkg/scheduler/cache", "SchedulerCache", "createBindRequest")
+	if fn == nil {
+		return
+	}
+	n := 0
+	for _, in := range instrsIn(fn, func(in ssa.Instruction) bool {
+		st, ok := in.(*ssa.Store)
+		if !ok {
+			return false
+		}
+		fa, isFA := st.Addr.(*ssa.FieldAddr)
+		return isFA && fieldOfAddr(fa).Name() == "Labels"
+	}) {
+		n++
+		labels := stripConv(in.(*ssa.Store).Val)
+		isPoolLabels := func(v ssa.Value) bool {
+			return termOf(v).contains(func(x *Term) bool { return x.Op == "call" && strings.HasSuffix(x.Name, "GetLabels") })
+		}
+		merged := false
+		if labels.Referrers() != nil {
+			for _, r := range *labels.Referrers() {
+				switch x := r.(type) {
+				case *ssa.MapUpdate:
+					// labels[k] = v inside a loop over the node-pool labels
+					if x.Map == labels {
+						if h := loopHeaderOf(x.Block()); h != nil {
+							for b := range naturalLoop(h) {
+								for _, li := range b.Instrs {
+									if rg, ok := li.(*ssa.Range); ok && isPoolLabels(rg.X) {
+										merged = true
+									}
+								}
+							}
+							for _, li := range h.Instrs {
+								if nx, ok := li.(*ssa.Next); ok {
+									if rg, ok := nx.Iter.(*ssa.Range); ok && isPoolLabels(rg.X) {
+										merged = true
+									}
+								}
+							}
+						}
+					}
+				case ssa.CallInstruction:
+					// maps.Copy(labels, poolLabels): destination first
+					cal := calleeOf(x)
+					if cal != nil && funcPkgPath(cal) == "maps" && strings.HasPrefix(cal.Name(), "Copy") {
+						args := x.Common().Args
+						if len(args) == 2 && stripConv(args[0]) == labels && isPoolLabels(args[1]) {
+							merged = true
+						}
+					}
+				}
+			}
+		}
+		c.Check(merged, "O7", "PROV", funcKey(fn)+": the request's labels include the node-pool labels", instrPos(in), "labels[k] = v for every node-pool label (or maps.Copy(labels, poolLabels))", "the labels written on the BindRequest do not receive the node-pool labels (e.g. the copy goes the other way): a shard's own requests no longer match its selector, a request for a deleted node is never cleaned up and its pod can never be re-bound")
+	}
+	c.Floor("O7", "PROV BindRequest label stores", n, 1)
 }
